@@ -92,6 +92,9 @@ var c16Labels = []string{
 	"cli", "CLI", "Client-1", "a", "Z", "0", "a-b", "-a", "a-", "-", "a_b", "a b", "caf\xc3\xa9", "\xff",
 	"x\x00y", "a.b", "", strings.Repeat("a", 63), strings.Repeat("a", 64), strings.Repeat("B", 62) + "-",
 	"dns-query", "..", ".", "%41", "a/b", "*", "a--b", "1-2-3",
+	// runes whose Unicode lower-case form is ASCII or that change length when
+	// case-mapped: Kelvin sign, long s, dotted capital I, Angstrom sign
+	"\u212aid", "a\u212a", "\u212a", "\u017fa", "\u0130d", "x\u212bx", "KID",
 }
 
 var c16Hosts = []string{"example.org", "dns.example.org", "org", "Example.Org", "a.b.c.d", "", "example.org.", "xn--e1afmkfd.xn--p1ai"}
